@@ -52,6 +52,7 @@ type c01Spec struct {
 	PostCalls  int       `json:"post_calls"`
 	Storm      int       `json:"storm,omitempty"`  // client side: this many peer requests are parked in handlers when the reader hits EOF
 	Modern     bool      `json:"modern,omitempty"` // client side: the session is negotiated at 2026-07-28 (server/discover); post-termination calls include Subscribe
+	Logged     bool      `json:"logged,omitempty"` // the scripted transport is wrapped in the SDK's LoggingTransport (which must pass every outcome through)
 }
 
 func genC01(r *vh.Rand) c01Spec {
@@ -105,6 +106,7 @@ func genC01(r *vh.Rand) c01Spec {
 	s.EndAt = horizon + 14
 	s.PostCalls = r.Range(1, 3)
 	s.Modern = s.Side == "client" && s.Storm == 0 && r.Chance(1, 3)
+	s.Logged = s.Side != "wire" && r.Chance(1, 5)
 	return s
 }
 
@@ -128,6 +130,15 @@ func TestVerifC01(t *testing.T) {
 			"ties at one virtual instant permit either outcome"},
 	}
 	vh.Run(t, cfg, func(c *vh.Case) {
+		if c.Index%40 == 3 {
+			// IOTransport with awkward streams (c01io_test.go)
+			spec := genC01IO(c.R)
+			c.SetSpec(spec)
+			if c.Bubble("", func() { runC01IO(c, spec) }) {
+				decideC01IO(c, spec)
+			}
+			return
+		}
 		if c.Index%8 == 5 {
 			// the streamable HTTP client: calls whose POST is still unanswered when the session fails (c01http_test.go)
 			spec := genC01HTTP(c.R)
@@ -277,7 +288,11 @@ func runC01(c *vh.Case, spec c01Spec) {
 		if spec.Modern {
 			cso = nil
 		}
-		cs, err := client.Connect(ctx, sc, cso)
+		var tr mcp.Transport = sc
+		if spec.Logged {
+			tr = &mcp.LoggingTransport{Transport: sc, Writer: io.Discard}
+		}
+		cs, err := client.Connect(ctx, tr, cso)
 		if err != nil {
 			c.Inconclusive("client connect: %v", err)
 			return
@@ -313,7 +328,11 @@ func runC01(c *vh.Case, spec c01Spec) {
 		doClose, doWait = cs.Close, cs.Wait
 	} else {
 		server = mcp.NewServer(&mcp.Implementation{Name: "s", Version: "1"}, nil)
-		ss, err := server.Connect(ctx, sc, nil)
+		var tr mcp.Transport = sc
+		if spec.Logged {
+			tr = &mcp.LoggingTransport{Transport: sc, Writer: io.Discard}
+		}
+		ss, err := server.Connect(ctx, tr, nil)
 		if err != nil {
 			c.Inconclusive("server connect: %v", err)
 			return
